@@ -71,6 +71,8 @@ def snapshot(app: Any, ids: list[str] | None = None, with_tables: bool = True, h
         if history:
             entry["history"] = _safe(lambda i=i: sorted((h.status_record.status.name, h.runner_context_id, h.status_record.timestamp.isoformat()) for h in sb.get_history(i)))
         entry["stored"] = _safe(lambda i=i: sb._get_invocation(i) is not None)
+        # the stored call (what a runner would execute): task and serialized arguments, as kept by the state backend
+        entry["call"] = _safe(lambda i=i: (lambda p: None if p is None else (str(getattr(p[1], "call_id", None)), sorted((k, str(v)[:60], hashlib.sha1(str(v).encode()).hexdigest()[:10]) for k, v in dict(getattr(p[1], "serialized_arguments", {}) or {}).items())))(sb._get_invocation(i)))
         inv[i] = entry
     snap["invocations"] = inv
     snap["wait_edges"] = _safe(lambda: sorted(whitebox.wait_edges(app)))
